@@ -359,7 +359,7 @@ def bind_args(ex, c: Contract, pos, kw, st: State):
     for n in names:
         ty = c.params[n]
         v = args[n]
-        out[n] = adapt(ex, v, ty, st, 'argument %s of %s' % (n, c.short))
+        out[n] = st.name_sv(adapt(ex, v, ty, st, 'argument %s of %s' % (n, c.short)))
     return out
 
 
@@ -409,6 +409,7 @@ def call_by_contract(ex, c: Contract, pos, kw, st: State, site='') -> SV:
             ghosts[g] = ex.args[g].t
         else:
             raise Unsupported('no binding for ghost %s of %s' % (g, c.key))
+    named_heap(st)
     pre = CCtx(st.h, st.h, args, ghosts)
     tag = 'call%d.%s' % (k, c.short)
     for (nm, f) in c.requires(pre):
@@ -483,4 +484,7 @@ def havoc(ex, st: State, c: Contract) -> H:
         st.assume(na >= h.alloc)
         h = h.with_(alloc=na)
     st.h = h
+    if 'L_bag' in c.modifies:
+        for f in list_axioms(h):
+            st.assume(f)
     return h
